@@ -45,6 +45,32 @@ def run(ctx):
     def nt(sc):
         return sc is None or sc["cls"] in ("alias", "campaign")
     nsprop.run(ctx, "C03", scs + camp, nontrivial=nt, extra_runs=extra_runs)
+    # existing backups are bystanders too: an overwrite in a backup mode under injected failures (rename, directory scan)
+    # must leave every existing <name>.~N~ intact, whatever the exit status (contract evaluated by Trace_Backup)
+    from . import C09
+    from .. import build, runner, tlc
+    binary = build.xcp()
+    hists = [{"init": [[["a"], "S0"], [["a", 2], "S2"]], "steps": [{"name": ["a"], "mode": "numbered", "v": "V1"}]},
+             {"init": [[["a"], "S0"], [["a", 1], "S1"]], "steps": [{"name": ["a"], "mode": "auto", "v": "V1"}]},
+             {"init": [[["a"], "S0"], [["a", 1], "S1"], [["a", 2], "S2"], [["ab"], "T0"], [["ab", 1], "T1"]], "steps": [{"name": ["a"], "mode": "numbered", "v": "V1"}]}]
+    bjobs = []
+    for drv in nsprop.DRIVERS:
+        for hi, h in enumerate(hists):
+            for sysc, errs in (("rename", ["EACCES", "EIO"]), ("getdents64", ["EIO", "EACCES"]), ("openat", ["EMFILE"]), ("ftruncate", ["ENOSPC"])):
+                for w in (1, 2, 3, 4):
+                    for err in errs:
+                        bjobs.append((h, "c03b-%d-%s-%s-%s-%d" % (hi, drv, sysc, err, w), drv, "%s:error=%s:when=%d" % (sysc, err, w)))
+    bres = runner.pmap(lambda j: C09.replay_history(binary, j[0], j[1], j[2], C09.BASES["plain"], inject=j[3]), bjobs)
+    brecs = [x for rr in bres for x in rr]
+    bm = tlc.monitor("Trace_Backup", "Trace_Backup.cfg", [{k: v for k, v in x.items() if not k.startswith("_")} for x in brecs])
+    bver = [v for t, v in bm.printed if t == "VERDICT"]
+    ctx.states += bm.distinct; ctx.transitions += bm.generated
+    for rec, v in zip(brecs, bver):
+        ctx.traces += 1; ctx.case(rec["id"], True)
+        if "backup-modified" in v["viol"] or "version-lost" in v["viol"]:
+            ctx.violation("C03: existing backup damaged by a faulted overwrite %s: %s; before=%s after=%s exit=%d" % (rec["id"], ",".join(v["viol"]), rec["before"], rec["after"], rec["exit"]),
+                          {"kind": "c03-backup", "record": {k: x for k, x in rec.items() if not k.startswith("_")}}, sig={"class": "backup-fault"})
+    ctx.notes["backup_fault_runs"] = len(brecs)
     nsprop.nonvacuity(ctx, [s for s in scs if s["cls"] == "alias"], "InvC03")
 
 def replay(ctx, path):
